@@ -1,6 +1,7 @@
 import Mkdb.Proofs.Page
 import Mkdb.Proofs.EngineNodes3
 import Mkdb.Proofs.Counters7
+import Mkdb.Proofs.Header
 /-!
 # C12 — a page written to disk reads back as the same page
 
@@ -276,3 +277,47 @@ example : Issued 0 2000 opsC12 ∧ 0 + opsC12.length < 2 ^ 32 ∧ 2000 + 2 * ops
     8192 + 139264 * opsC12.length ≤ 2 ^ 64 := by decide
 
 end Mkdb.Page
+
+/-!
+## The file header (the 28 bytes in front of the first page)
+
+`fileStore.save` / `fileStore.open` (storage/page.go): the row-id counter, the catalog root, the allocation
+frontier and the LSN counter, little-endian, `uint32` + 3 x `uint64`.  Every restart, every recovery and
+every flush goes through these bytes.  Quantifier: every header, every file content; no bound.
+-/
+namespace Mkdb.Header
+open Mkdb.Store
+
+/-- a header whose fields fit their widths is written as exactly 28 bytes and read back as the same
+header, whatever follows it in the file (the pages) -/
+theorem C12_header_roundtrip (h : Header) (hf : Fits h) (rest : Bytes) :
+    (encode h).length = 28 ∧ decode (encode h ++ rest) = some h := by
+  refine ⟨encode_length h, ?_⟩
+  rw [decode_encode_wrap, wrap_of_fits h hf]
+
+/-- without the width hypothesis: what comes back is the header with every counter wrapped to its field
+width - `save` stores `lastKey` in 32 bits and the others in 64 whatever their value (the counter bounds
+of `C02_counters_after_any_history` are what keeps the engine's headers inside `Fits`) -/
+theorem C12_header_roundtrip_wraps (h : Header) (rest : Bytes) :
+    decode (encode h ++ rest) = some (wrap h) :=
+  decode_encode_wrap h rest
+
+/-- `open` succeeds exactly on files of at least 28 bytes: a shorter file (an empty one, a header write
+cut short) is an error - the database does not start - and never a header made up of what was there -/
+theorem C12_header_read_iff_28_bytes (bs : Bytes) : (∃ h, decode bs = some h) ↔ 28 ≤ bs.length := by
+  constructor
+  · rintro ⟨h, hd⟩
+    by_cases hl : bs.length < 28
+    · rw [decode_none_of_short bs hl] at hd; cases hd
+    · omega
+  · exact decode_some_of_long bs
+
+/-- non-vacuity: a header of a database with a few tables; the largest header the fields can hold; a
+27-byte file is refused; a row-id counter beyond 32 bits does NOT come back (the hypothesis is needed) -/
+example : Fits ⟨17, 4096, 53248, 2041⟩ ∧ Fits ⟨2 ^ 32 - 1, 2 ^ 64 - 1, 2 ^ 64 - 4096, 2 ^ 64 - 1⟩ ∧
+    decode (encode ⟨17, 4096, 53248, 2041⟩) = some ⟨17, 4096, 53248, 2041⟩ ∧
+    decode ((encode ⟨17, 4096, 53248, 2041⟩).take 27) = none ∧
+    decode (encode ⟨2 ^ 32 + 5, 4096, 8192, 1⟩) = some ⟨5, 4096, 8192, 1⟩ := by
+  refine ⟨by decide, by decide, by decide, by decide, by decide⟩
+
+end Mkdb.Header
